@@ -23,6 +23,7 @@ dead); otherwise, and whenever an I atom is present, one module `m<i>.py` per no
 `import m<j>` / `m<j>.n<j>` references plus a `main.py` holding the probes.
 """
 import itertools
+import re
 
 KINDS = 'ACHITLDPGX'
 KIND_NAMES = {'A': 'assignment', 'C': 'call', 'H': 'inheritance', 'I': 'import',
@@ -124,8 +125,11 @@ def graph_id(atoms, variant):
 
 def parse_graph_id(gid):
     _, variant, body = gid.split(':')
-    atoms = tuple((int(a[0]), int(a[2]), a[1]) for a in body.split(','))
-    return atoms, variant
+    atoms = []
+    for a in body.split(','):
+        m = re.fullmatch(r'(\d+)([A-Z])(\d+)', a)
+        atoms.append((int(m.group(1)), int(m.group(3)), m.group(2)))
+    return tuple(atoms), variant
 
 
 # ----------------------------------------------------------------------------- rendering
@@ -225,13 +229,21 @@ def render(atoms, variant='p'):
 
 SCALING = ['assign_chain', 'call_chain', 'inherit_chain', 'diamonds', 'call_tree',
            'nested_containers', 'nested_closures', 'decorator_chain', 'import_chain',
-           'assign_diamonds', 'attr_diamonds']
+           'assign_diamonds', 'attr_diamonds', 'instance_tree'] + ['ring_' + k for k in KINDS]
 
 
 def scaling(family, n):
     """-> {'files': {...}}; main.py ends with the probe lines `r.x` / `r.x.` where r is the
     name at the end of the chain and x the payload attribute of class K."""
     files = {}
+    if family.startswith('ring_'):
+        # one directed cycle through n nodes, every arc of the same kind (n = 1: a self loop)
+        atoms = tuple((i, (i + 1) % n, family[5:]) for i in range(n))
+        prog = render(atoms, 'p')
+        files = prog['files']
+        head = 'm0.n0' if prog['layout'] == 'mods' else 'n0'
+        files['main.py'] += 'r = %s()\nr.a\nr.a.\n' % head
+        return {'files': files}
     L = ['class K:', '    x = 1']
     if family == 'assign_chain':
         L.append('a0 = K()')
@@ -289,6 +301,12 @@ def scaling(family, n):
         L += ['class S:', '    def __init__(self):', '        self.a0 = K()']
         for k in range(1, n + 1):
             L.append('        self.a%d = self.a%d if c else self.a%d' % (k, k - 1, k - 1))
+        L.append('r = S().a%d' % n)
+    elif family == 'instance_tree':
+        # binary tree through fresh instances: every S() is a new value, so nothing is shared
+        L += ['class S:', '    def __init__(self):', '        self.a0 = K()']
+        for k in range(1, n + 1):
+            L.append('        self.a%d = S().a%d if c else S().a%d' % (k, k - 1, k - 1))
         L.append('r = S().a%d' % n)
     elif family == 'import_chain':
         files['c0.py'] = 'class K:\n    x = 1\nv = K()\n'
